@@ -117,7 +117,10 @@ def check_rates(tier, seed):
                      "signature": f"C05:{fmt}:{code}:{what.split(':')[0]}"})
     for fmt in ["kida", "umist", "leeds", "uclchem", "naunet"]:
         N.fresh()
-        ars = [r for r in N.gen_reactions(fmt, rnd, n) if not (fmt == "leeds" and r.code in (11, 12))]
+        ars = [r for r in N.gen_reactions(fmt, rnd, n) if not (fmt == "leeds" and r.code in (11, 12)) and not (fmt == "uclchem" and r.code not in ("MA", "CRP", "PHOTON", "CRPHOT"))]
+        # the same reaction listed again with other coefficients (two sources, or a re-fit): every entry keeps its own law
+        for r0 in list(ars[:6]):
+            ars.append(N.AR(list(reversed(r0.reactants)), list(r0.products), r0.a * 3.0, r0.b + 0.5, r0.c + 2.0, r0.tmin, r0.tmax, r0.idx + 10000, r0.code, r0.markers))
         lines = [(r, N.ENC[fmt](r)) for r in ars]
         try:
             net = N.load([l for _, l in lines], fmt)
@@ -128,11 +131,30 @@ def check_rates(tier, seed):
         if len(got) != len(lines):
             V(fmt, "*", f"reaction-count: {len(got)} from {len(lines)} lines", "")
             continue
-        for (r, line), g in zip(lines, got):
+        # the statements the generated library evaluates (not only the expression of each reaction object)
+        emitted = {}
+        try:
+            from .native_ode import render, statements, strip_comments
+            files = render(net, "cvode", "dense", "cpu", jac_pattern=False)
+            emitted = {int(i): " ".join(rhs.split()) for i, rhs in statements(strip_comments(files["src/naunet_rates.cpp"]), r"\bk\[(\d+)\]")}
+        except Exception as e:
+            V(fmt, "*", f"render-raises: {type(e).__name__}: {e}", "")
+        for pos_, ((r, line), g) in enumerate(zip(lines, got)):
             try:
                 law = expected_law(fmt, r)
             except KeyError:
                 continue
+            if pos_ in emitted:
+                try:
+                    a_, b_, c_ = N.printed(fmt, r)
+                    w_ = eval_term(law(z3.RealVal(repr(a_)), z3.RealVal(repr(b_)), z3.RealVal(repr(c_))), CONDITIONS[0])
+                    h_ = eval_c(emitted[pos_], CONDITIONS[0])
+                    if not (abs(h_ - w_) <= 1e-9 * max(abs(h_), abs(w_)) or h_ == w_):
+                        V(fmt, r.code, f"emitted-statement: k[{pos_}] = {emitted[pos_][:100]!r} = {h_!r} in naunet_rates.cpp, the law of this entry gives {w_!r}", line)
+                except (ZeroDivisionError, OverflowError, ValueError):
+                    pass
+                except Exception as e:
+                    V(fmt, r.code, f"emitted-statement-invalid: k[{pos_}] = {emitted[pos_][:100]!r}: {type(e).__name__}: {e}", line)
             a, b, c = N.printed(fmt, r)
             try:
                 text = g.rateexpr()
